@@ -8,7 +8,15 @@ for d in sorted(glob.glob('/verif/seeded/*')):
     diff = open(d + '/patch.diff').read()
     files = sorted(set(re.findall(r'^\+\+\+ b/(\S+)', diff, re.M)))
     needs = m.get('needs_to_manifest', 'see notes.md')
-    caught = '; '.join(f"{c['check'].replace('./check ','')} → `{c['subcheck']}` ({c['signature']})" for c in m.get('checks_run', []) if c['exit'] == 1) or '**not detected**'
+    runs = m.get('checks_run', [])
+    caught = '; '.join(f"{c['check'].replace('./check ','')} → `{c['subcheck']}` ({c['signature']})" for c in runs if c['exit'] == 1)
+    if not caught:
+        if any(c['exit'] == 2 for c in runs):
+            caught = 'no violation line: exit 2 (inconclusive, progress watchdog) - the change makes the workload hang'
+        elif not runs:
+            caught = '(not swept yet)'
+        else:
+            caught = '**not detected**'
     rows.append(f"| {name} | {', '.join(f.replace('crates/','') for f in files)} | {needs} | {caught} |")
 p = '/verif/DESIGN.md'
 s = open(p).read()
